@@ -24,7 +24,7 @@ from .. import dispatch as D
 from .. import wire as W
 from ..mir import const_int, op_place
 from ..prov import derive, index_of
-from ..wrules import model, variant_magics, w1
+from ..wrules import model, variant_frames, variant_magics, w1
 
 TECHNIQUE = "static analysis: binrw layout/magic rules vs reference (W1/W5); per-arm effect sets over the switch nest of ZiPatch::apply closed under local helper calls (call graph); derives-from obligations on effect operands; dominator checks for conditional effects; must-pass-through of each arm's effects on its success paths (error-propagation blocks pruned; trip counts for effects written in loops over fixed arrays)"
 TRUSTED = ["pv/wire.py binrw model", "spec/layouts.txt (XIVLauncher ZiPatch structs)", "required-effect table embedded in this rule (reference ZiPatch semantics)", "rustc nightly MIR and call graph"]
@@ -58,6 +58,14 @@ REQUIRED = {
     ("Sqpk", "FileOperation", "MakeDirTree"): {"create_dir_all"},
 }
 NOOPS = [("Sqpk", "PatchInfo", None), ("Sqpk", "Index", None), ("Sqpk", "TargetInfo", None), ("FileHeader", None, None), ("ApplyOption", None, None), ("EndOfFile", None, None)]
+
+
+# (bytes of padding between the tag and the payload, payload record(s), bytes of padding after) per tagged variant:
+# XIVLauncher ZiPatch: FHDR = 2 alignment bytes, the header chunk, 1 byte; every other chunk/command follows its tag directly
+FRAMES = {
+    "patch::ChunkType": {"FileHeader": (2, ["FileHeaderChunk"], 1), "ApplyOption": (0, ["ApplyOptionChunk"], 0), "AddDirectory": (0, ["DirectoryChunk"], 0), "DeleteDirectory": (0, ["DirectoryChunk"], 0), "Sqpk": (0, ["SqpkChunk"], 0), "EndOfFile": (0, [], 0)},
+    "patch::SqpkOperation": {"AddData": (0, ["SqpkAddData"], 0), "DeleteData": (0, ["SqpkDeleteData"], 0), "ExpandData": (0, ["SqpkDeleteData"], 0), "FileOperation": (0, ["SqpkFileOperationData"], 0), "HeaderUpdate": (0, ["SqpkHeaderUpdateData"], 0), "PatchInfo": (0, ["SqpkPatchInfo"], 0), "TargetInfo": (0, ["SqpkTargetInfo"], 0), "Index": (0, ["SqpkIndex"], 0)},
+}
 
 
 def effect_kind(name):
@@ -253,6 +261,13 @@ def run(ctx):
         for v, m in ref.items():
             ctx.ob("W5", f"{enum}::{v}", got.get(v) == m, f"{enum}::{v} magic {got.get(v)}; reference {m}", "src/patch.rs", None, sample=(v == "AddData"))
         ctx.ob("W5", f"{enum}|no-extra", set(got) == set(ref), f"{enum}: tagged variants {sorted(got)}; reference {sorted(ref)}", "src/patch.rs", None, trivial=True)
+        # framing of each variant's payload: padding around it and which record follows the tag, on both sides
+        fr_ref = FRAMES.get(enum)
+        if fr_ref:
+            for side in ("r", "w"):
+                fr = variant_frames(ctx, enum, side) or {}
+                for v, want in fr_ref.items():
+                    ctx.ob("W5", f"{enum}::{v}|frame|{side}", fr.get(v) == want, f"{enum}::{v} ({'read' if side == 'r' else 'write'} side): (padding before, payload records, padding after) = {fr.get(v)}; reference {want}", "src/patch.rs", None, trivial=(side == "w"))
     ph = wm.items.by_path.get("patch::PatchHeader")
     if ph:
         asserts = [d.text.replace(" ", "") for f in ph["fields"] for d in W.directives(f["attrs"]) if d.name == "assert"]
@@ -446,6 +461,45 @@ def run(ctx):
             continue
         short = {k: (got.get(k, 0), n_) for k, n_ in want.items() if got.get(k, 0) < n_}
         ctx.ob("MUSTDO", name, not short, f"{name}: effects on every successful path {dict(got)}; required at least {want}" + (f"; AVOIDABLE {short}" if short else ""), ab.file, ab.line, sample=(key[1] == "AddData"))
+    # ---- OPENMODE: every target file an arm writes is opened for writing, created when missing and never truncated by
+    # the open itself (a patch may address a data file that does not exist yet; AddFile truncates explicitly, at offset 0
+    # only).  The builder chain of each `OpenOptions::open` is read off the calls that dominate it.
+    SETTERS = {"write", "create", "truncate", "append", "read", "create_new"}
+    opens = []
+    for bi, t_ in ab.calls():
+        r = t_.get("res") or ""
+        if r in ("std::fs::File::create", "std::fs::File::create_new", "std::fs::write"):
+            ctx.ob("OPENMODE", f"{r.split('::')[-1]}|truncating-create", False, f"{r} in ZiPatch::apply truncates (or refuses) an existing target file; targets are opened with write+create and no truncation", ab.file, ab.line)
+        if r in ("std::fs::OpenOptions::open",):
+            opens.append(bi)
+    n_open = 0
+    for ob_ in opens:
+        news = [bi for bi, t_ in ab.calls() if (t_.get("res") or "") in ("std::fs::OpenOptions::new", "std::fs::File::options") and ab.dominates(bi, ob_)]
+        if not news:
+            ctx.fail_closed("OPENMODE", "an OpenOptions::open in ZiPatch::apply has no dominating OpenOptions::new")
+            continue
+        start = max(news, key=lambda x: sum(1 for y in news if ab.dominates(y, x)))
+        flags = {}
+        undec = False
+        for bi, t_ in ab.calls():
+            r = t_.get("res") or ""
+            nm = r.split("::")[-1]
+            if r.startswith("std::fs::OpenOptions::") and nm in SETTERS and ab.dominates(start, bi) and ab.dominates(bi, ob_) and bi != ob_:
+                a1 = t_["args"][1] if len(t_["args"]) > 1 else {}
+                k = a1.get("k") if isinstance(a1, dict) else None
+                if isinstance(k, dict) and "bits" in k:
+                    flags[nm] = int(str(k["bits"]), 0) if not isinstance(k["bits"], int) else k["bits"]
+                else:
+                    undec = True
+        if undec:
+            ctx.fail_closed("OPENMODE", f"an open mode flag in ZiPatch::apply is not a constant ({flags})")
+            continue
+        n_open += 1
+        reg_name = next(("|".join(str(k) for k in key if k) for key, reg in regions.items() if ob_ in reg and key[0] == "Sqpk" and key[1] and (key[1] != "FileOperation" or key[2])), "apply")
+        ok_ = (flags.get("write") == 1 or flags.get("append") == 1) and flags.get("create") == 1 and flags.get("truncate", 0) == 0 and flags.get("create_new", 0) == 0
+        ctx.ob("OPENMODE", f"{reg_name}|write-create-no-truncate", ok_, f"{reg_name}: target opened with {flags}; required write (or append) = 1, create = 1, truncate = 0, create_new = 0", ab.file, ab.line, sample=(n_open == 1))
+    ctx.floor("OPENMODE", "target-file opens in ZiPatch::apply", n_open, 5)
+
     for fn, want in UNAVOIDABLE_FN.items():
         fb = prog.body(fn)
         if not fb:
